@@ -126,7 +126,7 @@ if __name__ == "__main__":
         mn = int(params[0]) if params else 1
         mx = int(params[1]) if len(params) > 1 else 8
         gen_mem(outdir, mn, mx, nomax=(mx < 0))
-    elif kind == "xlcorpus":
+    elif kind in ("xlcorpus", "wasihost"):
         pass   # handled at the end of the file
     else:
         sys.exit("unknown kind")
@@ -414,3 +414,58 @@ def gen_xlcorpus(outdir, seed, count):
 
 if __name__ == "__main__" and len(sys.argv) > 1 and sys.argv[1] == "xlcorpus":
     gen_xlcorpus(sys.argv[2], int(sys.argv[3]), int(sys.argv[4]))
+
+
+# ---------------------------------------------------------------------------------------------
+# E3: 'wasihost' — imports every implemented WASI call from both ABI name spaces with the official
+# signatures and exports one forwarder per import (p1_<name>, u_<name>), plus thread-spawn.
+WASI_SIGS = [
+    ("args_get", "ii", "i"), ("args_sizes_get", "ii", "i"), ("environ_get", "ii", "i"), ("environ_sizes_get", "ii", "i"),
+    ("clock_res_get", "ii", "i"), ("clock_time_get", "iji", "i"), ("fd_close", "i", "i"), ("fd_datasync", "i", "i"),
+    ("fd_fdstat_get", "ii", "i"), ("fd_filestat_get", "ii", "i"), ("fd_pread", "iiiji", "i"), ("fd_prestat_get", "ii", "i"),
+    ("fd_prestat_dir_name", "iii", "i"), ("fd_pwrite", "iiiji", "i"), ("fd_read", "iiii", "i"), ("fd_readdir", "iiiji", "i"),
+    ("fd_seek", "ijii", "i"), ("fd_sync", "i", "i"), ("fd_tell", "ii", "i"), ("fd_write", "iiii", "i"),
+    ("path_create_directory", "iii", "i"), ("path_filestat_get", "iiiii", "i"), ("path_open", "iiiiijjii", "i"),
+    ("path_readlink", "iiiiii", "i"), ("path_remove_directory", "iii", "i"), ("path_rename", "iiiiii", "i"),
+    ("path_symlink", "iiiii", "i"), ("path_unlink_file", "iii", "i"), ("random_get", "ii", "i"), ("proc_exit", "i", ""),
+]
+
+
+def gen_wasihost(outdir, with_thread_start=True, name="wasihost"):
+    g = Gen(name)
+    m = g.m
+    imports = []
+    for prefix, mod in (("p1", "wasi_snapshot_preview1"), ("u", "wasi_unstable")):
+        for nm, ps, rs in WASI_SIGS:
+            idx = m.import_func(mod, nm, [TY[c] for c in ps], [TY[c] for c in rs])
+            imports.append((prefix + "_" + nm, ps, rs, idx))
+    spawn_idx = m.import_func("wasi", "thread-spawn", [I32], [I32])
+    imports.append(("thread_spawn", "i", "i", spawn_idx))
+    m.memory(32, 32, shared=True, export="memory")
+    for ex, ps, rs, idx in imports:
+        body = [("local.get", k) for k in range(len(ps))] + [("call", idx)]
+        g.add(ex, ps, rs, body, "wasi", "")
+    if with_thread_start:
+        # wasi_thread_start(tid, arg): counter at 1024 += 1 (atomically); slot[arg] (at 2048 + 4*arg) = tid; sum at 1032 += tid
+        body = [("i32.const", 1024), ("i32.const", 1), ("i32.atomic.rmw.add", 0), "drop",
+                ("local.get", 1), ("i32.const", 2), "i32.shl", ("local.get", 0), ("i32.atomic.store", 2048),
+                ("i32.const", 1032), ("local.get", 0), ("i32.atomic.rmw.add", 0), "drop"]
+        m.func([I32, I32], [], body, export="wasi_thread_start")
+    os.makedirs(outdir, exist_ok=True)
+    with open(os.path.join(outdir, name + ".wasm"), "wb") as f:
+        f.write(m.encode())
+    with open(os.path.join(outdir, name + "_dispatch.inc"), "w") as f:
+        ct = {"i": "U32", "j": "U64"}
+        for ex, ps, rs, idx in imports:
+            args = "".join(", (%s)a[%d]" % (ct[c], k) for k, c in enumerate(ps))
+            call = "%s_%s((%sInstance*)i%s)" % (name, ex, name, args)
+            f.write("static U64 d_%s(void* i, const U64* a) { (void)a; %s; }\n" % (ex, ("return " + call) if rs else (call + "; return 0")))
+        f.write("const SimDispatch sim_dispatch[] = {\n")
+        for ex, ps, rs, idx in imports:
+            f.write('  {"%s", %d, d_%s},\n' % (ex, len(ps), ex))
+        f.write("  {0, 0, 0}\n};\n")
+
+
+if __name__ == "__main__" and len(sys.argv) > 1 and sys.argv[1] == "wasihost":
+    gen_wasihost(sys.argv[2], True, "wasihost")
+    gen_wasihost(sys.argv[2], False, "wasihostnt")
